@@ -133,6 +133,14 @@ def r_spawner_iterations(ctx: Ctx, rule: str, names=SPAWNERS):
                 continue
             n += 1
             is_map = name == "_arg_consumer"
+            # the typestate speaks about the iterations of the loop: nothing of the request is done outside it (a fast path that calls
+            # the function or starts a task next to the loop has none of the loop's handlers around it)
+            g_ = ctx.an.cfg(f)
+            for m_ in ctx.distinct_sites([x for x in g_.nodes if x.pred and ((x.op == "call" and x.callee is not None and x.callee.kind == "user") or
+                                                                             (x.op == "call" and ctx.is_call_to(x, "star_function")) or ctx.is_await_of(x, "_start_task"))]):
+                rep.ob(rule, "the user function is called, and tasks are started, only inside the spawner's loop", bool(m_.loops), node=m_,
+                       detail="" if m_.loops else "outside the loop none of its handlers apply: a raising call escapes the spawner (and surfaces from flush()/gather_and_close() "
+                                                  "although no task failed), a cancellation is not the loop's orderly way out")
             ai, exits = run_iteration_typestate(ctx, f, head, is_map)
             rep.analysed.setdefault("spawner_typestate", {})[f.qual] = {"product_states": ai.product_states, "product_edges": ai.product_edges,
                                                                          "exits": sorted(str(k[0]) + ":" + (k[1][0].rpartition(".")[2] if k[1] else "") for k in exits)}
